@@ -72,7 +72,8 @@ Definition S_dte_sub : akind * morder := (KSub, Acquire).
 Definition S_dte_ld : akind * morder := (KLoad, Acquire).
 Definition S_dte_add : akind * morder := (KAdd, Release).
 
-Record cfg := { c_self : Z; c_ismain : bool; c_floor : Z; c_main : Z (* lock value of the bound thread *) }.
+Record cfg := { c_self : Z; c_ismain : bool; c_floor : Z; c_main : Z (* lock value of the bound thread *);
+                c_p2 : bool (* the run calls dispatch_main(): the handle is closed at some point *) }.
 
 Inductive tcont := TRet | TWait | TLoop | TExit | TVia.   (* after push + wakeup: return / park / back in the drain loop / end of drain /
                                                               back in a call that goes through a queue targeting the main queue *)
@@ -251,16 +252,19 @@ Definition tstep0 (c : cfg) (p : tpc) (e : event) : option tpc :=
   (* ---- dispatch_sync_f / dispatch_async_and_wait_f ---- *)
   | TS_aaw => if is_s e S_ld_state then Some TS_fast else None
   | TS_fast =>
+      (* _dispatch_queue_try_acquire_barrier_sync: a plain (unobserved) test of dq_items_tail skips the rmw loop when the list
+         is not empty, so this load is the fast path's (then _dispatch_wait_prepare's follows) or already _dispatch_wait_prepare's:
+         both bodies must give up on the value read *)
       if is_s e S_ld_state
-      then (match f_dispatch_queue_try_acquire_barrier_sync_and_suspend 0 (c_self c) 0 1 (ea e) with
-            | NoCommit _ _ => Some TS_prep
-            | _ => None
+      then (match f_dispatch_queue_try_acquire_barrier_sync_and_suspend 0 (c_self c) 0 1 (ea e), wait_prepare_loop 0 (ea e) with
+            | NoCommit _ _, NoCommit _ _ => Some TS_prep
+            | _, _ => None
             end)
       else None
   | TS_prep =>
       if is_s e S_ld_state
       then (match wait_prepare_loop 0 (ea e) with NoCommit _ _ => Some (TP_xchg TWait) | _ => None end)
-      else None
+      else None                                                            (* eps: the fast path's loop was skipped *)
   | TS_dec =>
       if is_stk e (skind (fst S_dte_sub)) 4 && (eobj e =? c_self c) && (eord e =? smo (snd S_dte_sub)) && (eb e =? 1)
       then Some (if (ea e - 1) mod 4294967296 =? 0 then TS_ret else TS_load) else None
@@ -361,9 +365,11 @@ Definition tstep0 (c : cfg) (p : tpc) (e : event) : option tpc :=
   end.
 
 (* silent moves: plain (unobservable) accesses and give-ups of rmw loops *)
-(* the handle is disposed only after cleanup2 has released the lane: a stale thread-bound wakeup that observed a word no
-   longer owned by the bound thread may find the handle invalid and return without writing it *)
-Definition released (c : cfg) (old : Z) : bool := negb (nz (f_dq_state_drain_locked_by old (c_main c))).
+(* the handle is disposed at the end of cleanup2: from then on _dispatch_runloop_queue_class_poke finds it invalid and a stale
+   thread-bound wakeup returns without writing it (MainQ.mstep at MW_write with hopen = false).  A thread cannot see that
+   moment in its own events (the dq_state it observed may be older), so the skip is accepted in runs that call
+   dispatch_main(); lib/props/c02_mainq.py checks with the global stamps that no skip happens before that call *)
+Definition released (c : cfg) (old : Z) : bool := c_p2 c.
 
 Definition eps (c : cfg) (p : tpc) : option tpc :=
   match p with
@@ -375,6 +381,7 @@ Definition eps (c : cfg) (p : tpc) : option tpc :=
   | TL_wbody k d old =>
       if ex_giveup (fun q => wakeup_loop 0 q (if d then 2 else 0) 1 old ENQUEUED) then Some (done k) else None
   | TC_t2 old => Some (TC_cbody false old)
+  | TS_prep => Some (TP_xchg TWait)
   | _ => None
   end.
 
@@ -433,9 +440,10 @@ Definition tag (p : tpc) (e : event) (p' : tpc) : Z :=
   | TK_unlock _ _, TIdle => 37
   | TK_unlock _ _, TK_tail _ _ => 38                                    (* unlock refused: DIRTY *)
   | TK_tail _ _, TK_headwait _ | TK_headwait _, TK_headwait _ => 39
+  | TW_mbody _ _, TDone _ | TW_poke _ _, TDone _ | TW_mbody _ _, TIdle | TW_poke _ _, TIdle | TW_mbody _ _, TS_dec | TW_poke _ _, TS_dec => if ek e =? DVU_MARK then 0 else 40   (* poke skipped: handle closed *)
   | _, _ => 0
   end.
-Definition NTAGS : nat := 40.
+Definition NTAGS : nat := 41.
 
 Fixpoint bump (l : list Z) (k : nat) : list Z :=
   match l, k with
@@ -454,6 +462,6 @@ Fixpoint trun (c : cfg) (p : tpc) (tr : list event) (i : Z) (cnt : list Z) : tpc
   end.
 Definition tpc_idle (p : tpc) : Z := match p with TIdle | TGone => 1 | _ => 0 end.
 (* (index of the first rejected event or -1, 1 if the thread ended outside any call, how often each branch fired) *)
-Definition conform (self ismain floor main : Z) (tr : list event) : list Z :=
-  let c := {| c_self := self; c_ismain := negb (ismain =? 0); c_floor := floor; c_main := main |} in
+Definition conform (self ismain floor main p2 : Z) (tr : list event) : list Z :=
+  let c := {| c_self := self; c_ismain := negb (ismain =? 0); c_floor := floor; c_main := main; c_p2 := negb (p2 =? 0) |} in
   let '(p, i, cnt) := trun c TIdle tr 0 (repeat 0 NTAGS) in i :: tpc_idle p :: cnt.
